@@ -388,6 +388,7 @@ func (fr *Frame) loopHead(li *loopInfo, b *ssa.BasicBlock, phis []*ssa.Phi, pred
 			fc.assume(sImp(fr.reach[b], sAnd(fc.m.cmp(token.GEQ, v.S, fc.m.intConstI(-1, tInt), tInt), fc.m.cmp(token.LEQ, v.S, fc.m.intConst(pow2(62), tInt), tInt))), "range counter lies between -1 and the largest possible length")
 		}
 	}
+	li.headSt = nst
 	// 3. assume invariants
 	if fr.isTop {
 		env := fr.specEnv(nst, b, nil)
@@ -395,7 +396,7 @@ func (fr *Frame) loopHead(li *loopInfo, b *ssa.BasicBlock, phis []*ssa.Phi, pred
 		env.lookupEntry = func(name string, s2 *State) (Val, bool) { return fr.lookupLocal(name, s2, b, entryPhi) }
 		for _, c := range invs {
 			f := env.bool(c.Expr)
-			fc.assume(sImp(fr.reach[b], f), "invariant "+c.Text)
+			fc.assumeC(sImp(fr.reach[b], f), "invariant "+c.Text, c, fc.spec.Name)
 		}
 	}
 	if fc.relMode {
@@ -487,6 +488,35 @@ func (fr *Frame) backEdge(b, h *ssa.BasicBlock, cond string, st *State) {
 		f := env.bool(c.Expr)
 		fc.addOblig(&Oblig{Name: fmt.Sprintf("%s/inv-preserve#L%d.%d@b%d", fc.spec.Name, li.ord, c.Ord, b.Index), Kind: "inv-preserve", Tags: c.Tags,
 			goal: sImp(cond, f), Text: c.Text, Spec: c})
+	}
+	// step clauses: what one iteration does, as a relation between the loop-head state (prev) and the state here;
+	// plain names are resolved at the end of the iteration (body locals included), phis at their incoming values
+	if li.headSt != nil {
+		for _, c := range fc.spec.Steps {
+			if c.Loop != li.ord || !fc.modeOK(c) {
+				continue
+			}
+			senv := fr.specEnv(st, h, over)
+			senv.lookup = func(name string, s2 *State) (Val, bool) {
+				if v, ok := fr.lookupLocalAt(name, s2, b, nil); ok {
+					return v, true
+				}
+				return fr.lookupLocal(name, s2, h, over)
+			}
+			senv.loopPre = li.preSt
+			senv.lookupEntry = func(name string, s2 *State) (Val, bool) { return fr.lookupLocal(name, s2, h, li.entryPhi) }
+			senv.prevSt = li.headSt
+			senv.lookupPrev = func(name string, s2 *State) (Val, bool) {
+				if v, ok := fr.lookupLocal(name, s2, h, nil); ok {
+					return v, true
+				}
+				// a local of the loop body has one value per iteration
+				return fr.lookupLocalAt(name, s2, b, nil)
+			}
+			f := senv.bool(c.Expr)
+			fc.addOblig(&Oblig{Name: fmt.Sprintf("%s/step#L%d.%d@b%d", fc.spec.Name, li.ord, c.Ord, b.Index), Kind: "step", Tags: c.Tags,
+				goal: sImp(cond, f), Text: c.Text, Spec: c})
+		}
 	}
 }
 
